@@ -5,7 +5,7 @@ package gbn
 // VH_C07_Deserialize: gbn.Deserialize never panics on any byte string of
 // length 0..maxLen (contents symbolic) and never returns (nil, nil).
 func VH_C07_Deserialize() {
-	n := vIntRange("len", 0, 8)
+	n := vIntRange("len", 0, vParam("maxlen", 8))
 	b := vBytes("b", n)
 	vReach("deserialize")
 	m, err := Deserialize(b)
